@@ -17,6 +17,10 @@ package agreement
 //   DETECTED  player.handleMessageEvent (late payload): certificate taken from the freshest bundle of
 //             the vote machine without requiring it to be a certThreshold (a soft/next bundle is
 //             handed to the ledger as certificate when the payload arrives after the quorum).
+// Seeded changes: C03-B (certificate of a later period committed with the own period's staged block)
+//   DETECTED in sync-1prop-netsplit (soft votes reach one node only + that node offline for 3 delivery
+//   sub-phases); C03-A (stale vote of an equivocator left in Counts[..].Votes) needs TWO equivocating
+//   accounts, outside the 1-adversary-account bound of E-AGR (it is caught by C06).
 // Not covered: as C01.
 
 import (
